@@ -275,6 +275,54 @@ Theorem c02_no_forgery_decidable :
 Proof. exact no_forgery_b_sound. Qed.
 Print Assumptions c02_no_forgery_decidable.
 
+(* TLS 1.3 receive side: a verified inner plaintext content || type || 0^pad delivers exactly the content, for EVERY pad (unbounded count) *)
+Theorem c02_tls13_strips_all_padding :
+  forall (aead_open : bytes -> bytes -> bytes -> bytes -> option bytes) (gcm : bool) (s : rst) (typ maj min : N) 
+           (body pt : list N) (ty : N) (pad : nat),
+         aead_open (k_enc s) (nonce_xor s) (aad13 typ maj min (length body)) body = Some (pt ++ [ty] ++ repeat 0%N pad) ->
+         length body = length pt + 1 + pad + tagl ->
+         ty <> 0%N ->
+         1 <= length pt ->
+         (nlen pt <= rn_TLS_1_3_MAX_PLAINTEXT_FRAGMENT_LEN)%N -> open_tls13 aead_open gcm s typ maj min body = Deliver ty pt (bump s).
+Proof. exact tls13_strips_all_padding. Qed.
+Print Assumptions c02_tls13_strips_all_padding.
+
+(* no content type byte at all -> unexpected_message *)
+Theorem c02_tls13_all_zero_inner_refused :
+  forall (aead_open : bytes -> bytes -> bytes -> bytes -> option bytes) (gcm : bool) (s : rst) (typ maj min : N) 
+           (body : list N) (n : nat),
+         aead_open (k_enc s) (nonce_xor s) (aad13 typ maj min (length body)) body = Some (repeat 0%N (S n)) ->
+         length body = S n + tagl -> open_tls13 aead_open gcm s typ maj min body = Fatal c_SSL_ALERT_UNEXPECTED_MESSAGE (bump s).
+Proof. exact tls13_all_zero_refused. Qed.
+Print Assumptions c02_tls13_all_zero_inner_refused.
+
+(* header level: any padding that fits the record (<= 2^14 + 256 ciphertext) round-trips to exactly (type, content) *)
+Theorem c02_roundtrip_rec_tls13_any_padding :
+  forall (msz : nat) (cbc_enc cbc_dec : bytes -> bytes -> bytes -> bytes) (mac : bytes -> bytes -> bytes)
+           (aead_seal : bytes -> bytes -> bytes -> bytes -> bytes) (aead_open : bytes -> bytes -> bytes -> bytes -> option bytes),
+         (forall k n a p : bytes, aead_open k n a (aead_seal k n a p) = Some p) ->
+         (forall k n a p : bytes, length (aead_seal k n a p) = length p + tagl) ->
+         forall (f : family) (s : rst) (m : msg),
+         is13 f = true ->
+         m_typ m = 21%N \/ m_typ m = 22%N \/ m_typ m = 23%N ->
+         1 <= length (m_pt m) ->
+         (nlen (m_pt m) <= rn_TLS_1_3_MAX_PLAINTEXT_FRAGMENT_LEN)%N ->
+         (N.of_nat (length (m_pt m) + 1 + m_pad m + tagl) <= rn_TLS_1_3_MAX_CIPHERTEXT_LEN)%N ->
+         open_rec msz cbc_dec mac aead_open f s (fst (seal_rec msz cbc_enc mac aead_seal f s m)) =
+         Deliver (m_typ m) (m_pt m) (snd (seal_rec msz cbc_enc mac aead_seal f s m)).
+Proof. exact roundtrip_rec_tls13. Qed.
+Print Assumptions c02_roundtrip_rec_tls13_any_padding.
+
+(* tls13GetPadLen: the sender's block padding keeps the inner plaintext <= 2^14 + 1 and reaches the block multiple *)
+Theorem c02_tls13_sender_padding_fits :
+  forall bs len : N,
+         (1 <= bs)%N ->
+         (len <= rn_TLS_1_3_MAX_PLAINTEXT_FRAGMENT_LEN)%N ->
+         (len + 1 + tls13_pad_len bs len <= rn_TLS_1_3_MAX_INNER_PLAINTEXT_LEN)%N /\
+         (((len + 1 + tls13_pad_len bs len) mod bs)%N = 0%N \/ (len + 1 + tls13_pad_len bs len)%N = rn_TLS_1_3_MAX_INNER_PLAINTEXT_LEN).
+Proof. exact tls13_pad_len_props. Qed.
+Print Assumptions c02_tls13_sender_padding_fits.
+
 (* THE stream theorem, for each of the five families: whatever list of records the attacker presents, if no forgery occurs
    (Hunf = no_forgery: every record whose tag / MAC check succeeds under the receiver's current key and sequence number carries
    a tuple the honest peer sealed), the receiver delivers an in-order prefix of what the peer's application submitted. *)
